@@ -145,7 +145,8 @@ UNITS = {
                        'Determinism across hash seeds and processes is decided by the bounded stand-in.',
     },
     'C10': {
-        'functions': ['penman.tree:is_atomic', 'penman.tree:_map_vars'],
+        'functions': ['penman.tree:is_atomic', 'penman.tree:_map_vars', 'penman.tree:_nodes', 'penman.tree:Tree.nodes',
+                      'penman.tree:Tree.reset_variables'],
         'lemmas': [],
         'level': 'other',
         'explanation': 'Proved: _map_vars rewrites a tree exactly as the relabelling spec says (same shape, roles, '
@@ -170,18 +171,24 @@ UNITS = {
     'C04': {
         'functions': ['penman.layout:_process_role', 'penman.layout:_process_atomic',
                       'penman.model:Model.is_role_inverted', 'penman.model:Model.invert',
-                      'penman.model:Model.deinvert', 'penman.models.noop:NoOpModel.deinvert'],
-        'lemmas': ['deinvert_laws'],
+                      'penman.model:Model.deinvert', 'penman.models.noop:NoOpModel.deinvert',
+                      'penman.layout:_interpret_node', 'penman.layout:interpret'],
+        'lemmas': ['deinvert_laws', 'read_edges_step', 'read_edges_snoc', 'prefix_snoc', 'with_pop_is'],
         'level': 'other',
-        'explanation': 'Proved: the string-aware split of alignment suffixes off roles and atoms (_process_role, '
-                       '_process_atomic: a "~" inside a quoted string is content, the pivot is after the last quote), '
-                       'and the model side of deinversion (inverted iff undefined and ending in -of; deinvert swaps '
-                       'source and target once; never under the no-op model).  That _interpret_node assembles these '
-                       'into the documented depth-first reading is decided by the bounded stand-in against the '
-                       'executable Reading spec (its obligations are generated but do not discharge within the budget).',
+        'explanation': 'Proved, for every tree of the stated shape, every variable set and every model: '
+                       '_interpret_node returns exactly the documented Reading (contracts/c_layout.py: read_node / '
+                       'node_triples -- one instance triple per node, null concept listed first when none is written, '
+                       'then one triple per branch depth-first; an inverted role on a variable target is deinverted '
+                       'once, on a constant it is left as written, never under the no-op model; role and target '
+                       'alignments, Push on the branch that opens a node, POP on the last triple of the nested node); '
+                       'the string-aware split of alignment suffixes (_process_role, _process_atomic) and the model '
+                       'side of deinversion.  interpret() (the graph built from that reading: triples with their colon, '
+                       'top, marker table where the first occurrence of a duplicated triple wins) has its contract '
+                       'stated and executed natively, not proved; that and the agreement of the Reading spec with the '
+                       'documentation on strings are decided by the bounded stand-in.',
     },
     'C18': {
-        'functions': ['penman.constant:quote', 'penman.constant:evaluate'],
+        'functions': ['penman.constant:quote', 'penman.constant:evaluate', 'penman.constant:type'],
         'regex': ['lexer', 'json'],
         'lemmas': [],
         'level': 'other',
